@@ -110,6 +110,9 @@ func (t *MutationHookTimer) AddTask(ctx context.Context, param def.TaskUpdatePar
 }
 
 func (t *MutationHookTimer) UpdateById(ctx context.Context, id string, param def.TaskUpdateParam) {
+	// Compare what the repository stores: times truncated to milliseconds.
+	param = param.Normalize()
+
 	t.mu.Lock()
 	defer t.mu.Unlock()
 
